@@ -157,6 +157,14 @@ var extraVals = map[string][]string{
 	"incname":    {"./extra", "sub/../extra", "extra.cfg/../extra"},
 }
 
+// gluedTexts: for the expression fields, references written directly against
+// what precedes and follows them (no blank): after <= >= == != ( + - , before
+// ) * and two references back to back.  Each is run with p from -D, from a
+// default, and undefined.
+var gluedBool = []string{"t<=~p~", "t>=~p~", "t==~p~", "t!=~p~", "(~p~)>t", "-~p~<t", "1+~p~>t", "~p~*2>t", "(t+~p~)>0", "t<~p~~p~", "t<~p~&&(-~p~)<t", "!(t>~p~)", "t<=~p~||t>=~p~"}
+var gluedAny = []string{"t+~p~", "(~p~)", "-~p~", "~p~*t", "t<=~p~", "t!=~p~", "~p~~p~", "(t-~p~)*(~p~+1)", "t>=~p~ ? 1 : 0"}
+var gluedTexts = map[string][]string{"auditexpr": gluedBool, "expexpr": gluedBool, "cexpr": gluedAny, "pexpr": gluedAny}
+
 // defModes: how p is (not) defined.
 var defModes = []string{"D", "F", "B", "N", "FF", "DD", "DF-tilde"}
 
@@ -188,6 +196,7 @@ func renderTemplate(s *slot, text string, preamble []string) string {
 // plantedCase is one (slot, definition mode) experiment.
 type plantedCase struct {
 	Slot, Mode string
+	Text       string // what is written in the field
 	Value      string // extra-value experiments: the value of p
 	NeedAccept bool   // the value was chosen to keep the configuration valid: it must be accepted
 	Subst      bool
